@@ -29,7 +29,8 @@ def gen_case(rng, tier):
     prof["l3_kernels"] = True
     prof["multiblock"] = rng.random() < 0.2  # functions with several blocks (cf.br / cf.cond_br)
     prof["streams"] = rng.random() < 0.25  # dart streaming regions on snax_xdma (DM for extension kernels) / snax_alu (compute)
-    prof["exec_region"] = rng.choice([0, 0, 0.3])  # scf.execute_region with cf branches among the conditionals
+    prof["exec_region"] = rng.choice([0, 0, 0.3])
+    prof["helper"] = rng.random() < 0.12 and not prof["multiblock"] and not prof.get("views")  # a private helper function with a body  # scf.execute_region with cf branches among the conditionals
     ast = B.BufGen(rng, prof).program()
     if rng.random() < 0.1:
         ast["core_query"] = True
@@ -56,6 +57,7 @@ def roles_of(ast):
                 walk(s.get(key, []))
 
     walk(ast["body"])
+    walk(ast.get("helper") or [])
     for b in ast.get("blocks", []):
         walk(b)
     return out
@@ -162,7 +164,11 @@ def shrink(case):
     if case["cores"] > 2:
         yield dict(case, cores=case["cores"] - 1, envs=[dict(e, cores=case["cores"] - 1) for e in case["envs"]])
     for nb in B.shrink_body(case["ast"]["body"]):
-        yield dict(case, ast=dict(case["ast"], body=nb))
+        if case["ast"].get("helper") is None or any(x["k"] == "callh" for x in nb):
+            yield dict(case, ast=dict(case["ast"], body=nb))
+    if case["ast"].get("helper"):
+        for nb in B.shrink_body(case["ast"]["helper"]):
+            yield dict(case, ast=dict(case["ast"], helper=nb))
     if case["ast"].get("blocks"):
         b1, b2 = case["ast"]["blocks"]
         for nb in B.shrink_body(b1):
